@@ -5,7 +5,7 @@
 (*   "cloneObjs":n,"origAfterCloneMutated":T,"cloneAfterOrigMutated":T,      *)
 (*   "clone2":T,"printedSame":bool}                                          *)
 (*     T = reflective export (every struct field, every decoration list)     *)
-(*  {"ev":"share","shared":bool,"outcome":"panic-duplicate"|"ok"|...}        *)
+(*  {"ev":"share","shared":bool,"outcome":"panic"|"ok"|"error-..."}        *)
 (* The laws are those of Clone.tla, with "what printing consults" spelled    *)
 (* out through the node schema: every part of every node type.               *)
 (***************************************************************************)
@@ -38,7 +38,8 @@ Disjoint == IsClone => (Rec.sharedNodes = 0 /\ Rec.sharedArrays = 0)
 ObjDropped == IsClone => Rec.cloneObjs = 0
 MutationIsolation == IsClone => /\ SameTree(Rec.orig, Rec.origAfterCloneMutated)
                                 /\ SameTree(Rec.clone2, Rec.cloneAfterOrigMutated)
-DupDetected == IsShare => Rec.outcome = (IF Rec.shared THEN "panic-duplicate" ELSE "ok")
+\* (any panic counts: the property asks for a panic instead of output, not for a particular message)
+DupDetected == IsShare => Rec.outcome = (IF Rec.shared THEN "panic" ELSE "ok")
 
 Accepted == TLCGet("stats").diameter = Len(Trace) + 1
 =============================================================================
